@@ -710,6 +710,42 @@ static std::string run_free_case(std::vector<std::string> const &w,int backend)
 	return out.str();
 }
 
+// ------------------------------------------------------------------ stale timer id (known finding)
+// X <n>: timer A (deadline now) expires and is queued; before its waiter runs a handler arms n other timers (one of
+// them very probably reuses A's slot in timer_events_index_) and calls A.cancel().  No B timer is ever cancelled
+// by its owner; output: A <calls>:<code> B-canceled <0|1>.  Up to three attempts (the slot search is random).
+static std::string run_stale_timer_case(std::vector<std::string> const &w,int backend)
+{
+	int n = w.size()>1 ? atoi(w[1].c_str()) : 30000;
+	if(n<1 || n>32000) return "bad-op";
+	std::string res;
+	for(int attempt=0;attempt<3;attempt++) {
+		io::io_service srv(backend);
+		io::deadline_timer A(srv);
+		std::vector<std::unique_ptr<io::deadline_timer> > B;
+		int a_calls=0,b_canceled=0; std::string a_code="-";
+		srv.post([&]{
+			A.expires_from_now(booster::ptime::milliseconds(0));
+			A.async_wait([&](error_code const &e){ a_calls++; a_code=code_name(e); });
+			srv.post([&]{
+				for(int i=0;i<n;i++) {
+					B.emplace_back(new io::deadline_timer(srv));
+					B.back()->expires_from_now(booster::ptime::milliseconds(3600*1000));
+					B.back()->async_wait([&](error_code const &e){ if(e) b_canceled++; });
+				}
+				A.cancel();
+				srv.post([&]{ srv.post([&]{ srv.stop(); }); });
+			});
+		});
+		srv.run();
+		std::ostringstream out;
+		out<<"A "<<a_calls<<':'<<a_code<<" B-canceled "<<(b_canceled>0?1:0);
+		res=out.str();
+		if(b_canceled>0) break;
+	}
+	return res;
+}
+
 int main(int argc,char **argv)
 {
 	int backend=io::reactor::use_default;
@@ -725,6 +761,7 @@ int main(int argc,char **argv)
 		if(w[0]=="L") return run_loop_case(w,backend);
 		if(w[0]=="K") return run_pool_case(w);
 		if(w[0]=="C") return run_free_case(w,backend);
+		if(w[0]=="X") return run_stale_timer_case(w,backend);
 		return "bad-op";
 	});
 }
